@@ -153,7 +153,13 @@ func (evt *catchEvent) NextAction(ctx context.Context, flow Flow) chan IAction {
 	// interrupting boundary event), otherwise the node stops draining its inbox
 	// and event delivery to the whole instance blocks
 	response := make(chan IAction, 1)
-	evt.mch <- nextActionMessage{response: response, flow: flow}
+	// the node's goroutine ends with the context: nobody may be left to take the
+	// token, which then leaves on its own cancellation (a nil channel never fires)
+	select {
+	case evt.mch <- nextActionMessage{response: response, flow: flow}:
+	case <-ctx.Done():
+		return nil
+	}
 	return response
 }
 
